@@ -4,8 +4,15 @@
    (17 1 ty mean var x) density | (17 2 ty mean var k source) draw k samples from `source`
    -> (option-list consumed) | (17 3 ty k mean cov source (ns nf)) matrix and tensor multivariate
    draws of k >= 1 samples (mean / cov as lists of rows) | (17 5 ty mean cov source (ns nf)) the same
-   with 0 samples (known finding K1) | (17 4 ty data) Gaussian::approximating"""
+   with 0 samples (known finding K1) | (17 4 ty data) Gaussian::approximating
+   FLOAT tier (fty 0 = f64, 1 = f32; numbers (m e) = decimal m * 10^e): (17 6 fty mean var (x ..))
+   densities against the closed form, symmetry, maximum at the mean -> (1 1 1 1) |
+   (17 7 fty mean var k source) draw -> (present consumed values-ok) | (17 8 fty k mean cov source)
+   multivariate draw, covariances well away from the edge of positive definiteness
+   -> (present consumed values-ok)"""
 import itertools
+import math
+from fractions import Fraction
 from tools.vlib import sx, parse_sx
 
 THEOREMS_FILE = "C17"
@@ -15,6 +22,10 @@ ASSUMPTIONS = [
     "those cases are generated and reported as KNOWN-FINDING, not as violations",
     "sqrt/ln/sin/cos/exp/pow/pi are uninterpreted (fixed polynomials) in the correspondence; their meaning enters only "
     "through the hypotheses of C17_pdf (sqrt multiplicative on non-negatives, pow y 2 = y*y), instantiated with Coq's reals in C17_pdf_real",
+    "float tier (ops 6-8): f64 / f32 VALUES are compared inside the harness with the real-number closed forms that C17_pdf_real, "
+    "C17_draw_values_real and C17_mv_draw_real prove of the model over Coq's R, evaluated in f64 (std's sqrt / exp / ln / cos / sin / PI "
+    "taken as faithful to the real functions within a few units in the last place) inside an explicit rounding budget; IEEE arithmetic is not modelled; "
+    "presence of a multivariate draw is decided exactly (LDL^T pivots over the rationals) for covariances whose pivots are well away from 0",
 ]
 
 
@@ -185,12 +196,182 @@ def gen(tier, rng):
         for _ in range(200 if quick else 3000):
             yield sx([17, 4, ty, [rnd(ty, rng) for _ in range(rng.randrange(1, 9))]])
 
+    # ---- float tier (f64 / f32 against the real-number closed forms)
+    yield from _float_pdf(rng, quick)
+    yield from _float_draw(rng, quick)
+    yield from _float_mv(rng, quick)
+
+
+# ---------------------------------------------------------------- float tier (ops 6, 7, 8)
+def dec(x, digits=12):
+    """a python float as (m e) with `digits` significant decimal digits"""
+    if x == 0:
+        return [0, 0]
+    e = math.floor(math.log10(abs(x))) - digits + 1
+    m = round(x / 10.0 ** e)
+    while m % 10 == 0 and m != 0:
+        m //= 10
+        e += 1
+    return [m, e]
+
+
+def _float_pdf(rng, quick):
+    means = [[0, 0], [1, 0], [-35, -1], [1, 3], [-1, -3], [12345678, -3]]
+    variances = [[1, 0], [1, -6], [1, 6], [25, -2], [2, 0], [73, -1], [1, -3], [4, 3], [9, 0]]
+    for fty in (0, 1):
+        far = (38.0, 38.7, 40.0) if fty == 0 else (12.9, 13.2, 14.0, 20.0)
+        for mean in means:
+            for var in variances:
+                mu, sd = mean[0] * 10.0 ** mean[1], math.sqrt(var[0] * 10.0 ** var[1])
+                xs = [mean]
+                for t in (-10, -7.5, -4, -3, -2, -1, -0.5, -0.1, -1e-3, 1e-6, 0.25, 0.7, 1, 1.5, 2.5, 3, 5, 6, 8, 10):
+                    xs.append(dec(mu + t * sd, 12 if fty == 0 else 7))
+                for t in far:                       # around and beyond the underflow threshold
+                    xs.append(dec(mu + t * sd))
+                    xs.append(dec(mu - t * sd))
+                for _ in range(6):
+                    xs.append(dec(mu + rng.uniform(-10, 10) * sd))
+                yield sx([17, 6, fty, mean, var, xs])
+        # mirror pairs that are exactly representable: dyadic mean and offsets
+        for mean in ([0, 0], [3, 0], [-25, -1], [1024, 0], [-375, -3]):
+            for var in ([1, 0], [4, 0], [3, 0], [7, -1], [16, 2], [1, -2]):
+                xs = []
+                for num_, den in ((1, 1), (1, 2), (3, 4), (5, 8), (7, 1), (1, 16), (9, 2), (33, 32), (12, 1)):
+                    for sgn in (1, -1):
+                        x = Fraction(mean[0]) * Fraction(10) ** mean[1] + sgn * Fraction(num_, den)
+                        # exact decimal
+                        e = 0
+                        while x.denominator != 1:
+                            x *= 10
+                            e -= 1
+                        xs.append([int(x), e])
+                yield sx([17, 6, fty, mean, var, xs])
+        for _ in range(60 if quick else 1500):
+            mean = dec(rng.choice([0.0, rng.uniform(-5, 5), rng.uniform(-1e4, 1e4), rng.uniform(-1e-2, 1e-2)]), 7)
+            var = dec(10.0 ** rng.uniform(-6, 6), 6)
+            mu, sd = mean[0] * 10.0 ** mean[1], math.sqrt(var[0] * 10.0 ** var[1])
+            xs = [dec(mu + rng.uniform(-10, 10) * sd) for _ in range(rng.randrange(1, 12))]
+            yield sx([17, 6, fty, mean, var, xs])
+
+
+def _unit(rng, fty, kind):
+    """a source number in [0, 1] as (m e)"""
+    r = rng.random()
+    if kind == "u":
+        if r < 0.08:
+            return [1, 0]
+        if r < 0.16:
+            return [1, -300] if fty == 0 else [1, -30]
+        if r < 0.22:
+            return [999999999, -9] if fty == 0 else [999999, -6]
+        if r < 0.28:
+            return [1, -9]
+        return [rng.randrange(1, 10 ** 9), -9]
+    if r < 0.3:
+        return rng.choice([[0, 0], [25, -2], [5, -1], [75, -2], [1, 0], [125, -3], [1, -9]])
+    return [rng.randrange(0, 10 ** 9), -9]
+
+
+def _source(rng, fty, n):
+    return [_unit(rng, fty, "u" if i % 2 == 0 else "v") for i in range(n)]
+
+
+def _float_draw(rng, quick):
+    params = [([0, 0], [1, 0]), ([1, 0], [4, 0]), ([-2, 0], [225, -2]), ([5, -1], [2, 0]), ([1, 3], [1, -6]),
+              ([-7, 2], [1, 6]), ([0, 0], [3, 0])]
+    for fty in (0, 1):
+        for mean, var in params:
+            for k in range(0, 8 if quick else 12):
+                w = 2 * ((k + 1) // 2)
+                for n in sorted({max(w - 2, 0), max(w - 1, 0), w, w + 1, w + 3}):
+                    yield sx([17, 7, fty, mean, var, k, _source(rng, fty, n)])
+        for _ in range(150 if quick else 4000):
+            k = rng.randrange(0, 14)
+            n = max(0, 2 * ((k + 1) // 2) + rng.choice([0, 0, 0, 1, 2, -1, -2]))
+            mean = dec(rng.choice([0.0, rng.uniform(-5, 5), rng.uniform(-1e3, 1e3)]), 7)
+            var = dec(10.0 ** rng.uniform(-6, 6), 6)
+            yield sx([17, 7, fty, mean, var, k, _source(rng, fty, n)])
+        # u = 0 (an infinite radius): with v = 0 the cos sample is +inf and the sin one NaN on both sides
+        yield sx([17, 7, fty, [0, 0], [1, 0], 2, [[0, 0], [0, 0]]])
+        yield sx([17, 7, fty, [1, 0], [4, 0], 2, [[0, 0], [1, -1]]])
+
+
+def _pivots(cov):
+    """LDL^T pivots of the lower triangle over the rationals (None after a zero pivot)"""
+    n = len(cov)
+    L = [[Fraction(0)] * n for _ in range(n)]
+    d = []
+    for j in range(n):
+        dj = Fraction(cov[j][j]) - sum(L[j][k] * L[j][k] * d[k] for k in range(j))
+        d.append(dj)
+        if dj == 0:
+            return d, False
+        for i in range(j + 1, n):
+            L[i][j] = (Fraction(cov[i][j]) - sum(L[i][k] * L[j][k] * d[k] for k in range(j))) / dj
+    return d, True
+
+
+def _clear(cov):
+    """every pivot up to (and including) the first non-positive one is well away from 0 relative
+    to the diagonal, so that rounding cannot change what the Cholesky routine decides"""
+    d, _ = _pivots(cov)
+    scale = max(abs(cov[i][i]) for i in range(len(cov))) or 1
+    for dj in d:
+        if abs(dj) < Fraction(1, 20) * scale:
+            return False
+        if dj < 0:
+            return True
+    return True
+
+
+def _float_mv(rng, quick):
+    exact_singular = [[[1, 1], [1, 1]], [[4, 2], [2, 1]], [[0]], [[0, 0], [0, 1]], [[1, 2], [2, 4]],
+                      [[1, 0, 0], [0, 4, 2], [0, 2, 1]]]
+    for fty in (0, 1):
+        covs = []
+        for n in range(1, 5):
+            made = 0
+            while made < (14 if quick else 120):
+                a = [[rng.randrange(-3, 4) for _ in range(n)] for _ in range(n)]
+                c = [[sum(a[i][k] * a[j][k] for k in range(n)) for j in range(n)] for i in range(n)]
+                style = rng.random()
+                if style < 0.55:
+                    for i in range(n):
+                        c[i][i] += rng.randrange(1, 4)          # positive definite
+                elif style < 0.8:
+                    i = rng.randrange(n)
+                    c[i][i] -= rng.randrange(1, 12)             # usually indefinite
+                else:
+                    c = [[rng.randrange(-4, 5) for _ in range(n)] for _ in range(n)]
+                    for i in range(n):
+                        for j in range(i):
+                            c[j][i] = c[i][j]
+                if not _clear(c):
+                    continue
+                if rng.random() < 0.15:                          # the upper triangle is never read
+                    for i in range(n):
+                        for j in range(i + 1, n):
+                            c[i][j] = rng.randrange(-9, 10)
+                made += 1
+                covs.append((c, rng.choice([0, 0, -6, -3, 3, 6, -1])))
+        covs += [(c, 0) for c in exact_singular]
+        for c, e in covs:
+            n = len(c)
+            w = 2 * ((n + 1) // 2)
+            cov = [[[v, e] for v in row] for row in c]
+            for k in (1, 2, 3) if n < 4 else (1, 2):
+                for ln in (k * w, k * w + 1, k * w - 1) if rng.random() < 0.5 else (k * w,):
+                    mean = [dec(rng.choice([0.0, rng.uniform(-5, 5), rng.uniform(-1e3, 1e3)]), 7) for _ in range(n)]
+                    yield sx([17, 8, fty, k, mean, cov, _source(rng, fty, max(ln, 0))])
+
 
 def nontrivial(case, model_out):
     """a density with variance other than 0 and 1 / a draw of k >= 1 samples (present or absent) /
     a multivariate draw that produced rows or was refused for a stated reason / an approximation
     of at least two values"""
     t = parse_sx(case)
+    if t[1] in (6, 7, 8):
+        return True
     if t[1] == 1:
         return t[4] not in ([0, 1], [1, 1], 0, 1)
     if t[1] == 2:
